@@ -373,6 +373,48 @@ func init() {
 					if d := refSameT(ref, got); d != "" {
 						r.Fail("temporal-literal|"+t.class+"|denotes-other-value:"+d, core.W{"literal": lit, "string_form": str})
 					}
+					// the value survives its element form: System -> proto -> System keeps every field it printed (an offset-less
+					// value comes back anchored at UTC - the element always names a zone -, the fields are the same); hour and minute
+					// precision have no element form
+					if ref.Prec != 4 && ref.Prec != 5 {
+						var back string
+						var okb bool
+						pi := core.Try(func() {
+							switch v := res.Coll[0].(type) {
+							case system.Date:
+								if d, err := system.DateFromProto(v.ToProtoDate()); err == nil {
+									back, okb = d.String(), true
+								}
+							case system.DateTime:
+								if d, err := system.DateTimeFromProto(v.ToProtoDateTime()); err == nil {
+									back, okb = d.String(), true
+								}
+							case system.Time:
+								back, okb = system.TimeFromProto(v.ToProtoTime()).String(), true
+							}
+						})
+						r.Eval()
+						strip := func(x string) string {
+							if i := strings.Index(x, "T"); i >= 0 {
+								rest := x[i:]
+								if j := strings.LastIndexAny(rest, "+-Z"); j > 0 {
+									return x[:i+j]
+								}
+							}
+							return x
+						}
+						w := core.W{"literal": lit, "string_form": str, "after_element_round_trip": back}
+						switch {
+						case pi != nil:
+							r.Fail("temporal-literal|"+t.class+"|to-element-and-back|"+pi.Key(), w)
+						case !okb:
+							r.Fail("temporal-literal|"+t.class+"|to-element-and-back|rejected", w)
+						case ref.HasOff && !sameOffsetText(back, str):
+							r.Fail("temporal-literal|"+t.class+"|to-element-and-back|changes-the-value", w)
+						case !ref.HasOff && strip(back) != strip(str):
+							r.Fail("temporal-literal|"+t.class+"|to-element-and-back|changes-the-fields", w)
+						}
+					}
 					// canonical string form re-parses (by the implementation) to an equal value
 					rt := lib.Run(lit+".toString().to"+t.kind+"() = "+lit, nil, nil)
 					r.Eval()
@@ -1106,6 +1148,12 @@ func c15TemporalProto(r *core.Rec, kind, text, class string) {
 			}
 		}
 	}
+}
+
+// sameOffsetText: two printed DateTimes are the same text, Z and +00:00 being one offset
+func sameOffsetText(a, b string) bool {
+	n := func(x string) string { return strings.Replace(x, "+00:00", "Z", 1) }
+	return n(a) == n(b)
 }
 
 func tzMinutes(tz string) (int, bool) {
